@@ -212,7 +212,8 @@ def run(seed, tier, lean) -> Result:
     r = random.Random(seed ^ 0xC12)
     for _ in range(300 if tier == 'quick' else 1800):
         cs = r.getrandbits(48)
-        bad, info = free_case(random.Random(cs))
+        from ..common import debug_logging, log_turn
+        with debug_logging(log_turn()): bad, info = free_case(random.Random(cs))
         res.evaluations += 1; res.bump('free_attacker_cases')
         if info['kinds'].count('free') >= 2: res.nontrivial.add(canon_hash(['free', cs]))
         if bad:
